@@ -271,7 +271,7 @@ def manufactured(rep, rng, n):
                         infeas = max(infeas, -val if cdict["type"] == "ineq" else abs(val))
                     for k, (lo, hi) in enumerate(bnds):
                         infeas = max(infeas, lo - xo[k], xo[k] - hi)
-                acc = 1e-3 if meth in ('trust-constr', 'auto') else 1e-5    # trust-constr (which auto may pick) is a barrier method: looser solver accuracy
+                acc = 5e-3 if meth in ('trust-constr', 'auto') else 1e-5    # trust-constr (which auto may pick) is a barrier method: looser solver accuracy
                 # the optimum of a strictly convex problem is unique: optyx's point must be feasible for the model as written and
                 # its objective must agree with the direct call's from BOTH sides
                 bad = (not ok_status or gap is None or gap > acc * (1 + abs(fstar)) or infeas > 1e-4
